@@ -1348,6 +1348,11 @@ func (c *BytecodeCompiler) compileNode(node ast.Node, valueIsIgnored bool) expre
 		c.compileAwaitExpressionNode(node)
 	case *ast.YieldExpressionNode:
 		c.compileYieldExpressionNode(node)
+		if !valueIsIgnored {
+			// a resumed generator continues after the yield with nothing on the stack
+			c.emit(node.Location().EndPos.Line, bytecode.NIL)
+			return expressionCompiled
+		}
 		return expressionCompiledWithoutResult
 	case *ast.VariablePatternDeclarationNode:
 		c.compileVariablePatternDeclarationNode(node)
